@@ -14,16 +14,17 @@ import RModel.Lemmas.Scan
   * `scan_shape`: the sort key and the ordered collect as they stand in scanner.rs (generated facts).
 
   Read-only (Part B; the programs are generated from the gate table `Gen/DryRunGates.lean`):
-  * `plan_dry_run_gates`, `replace_dry_run_gates`, `rename_dry_run_gates`, `search_is_dry_run`, `probe_is_transient`:
-    the extracted facts, by name.
-  * `readonly`: every dry run and every `search` leaves every path outside `.renamify` (and, when auto-init adds
-    its line, the ignore file) exactly as it was — the probe directory is created and removed.
-  * `readonly_partial`: for plan --dry-run, search and replace --dry-run the tree is *identical* and every written
-    path is permitted.  `C14_full` (the same for every command) is false today:
-    `C14_witness_rename_dryrun_creates_renamify`.
+  * `plan_dry_run_gates`, `replace_dry_run_gates`, `rename_dry_run_gates`, `search_is_dry_run`, `plan_gates`,
+    `probe_is_transient`: the extracted facts, by name (a write statement that moves in front of its dry-run gate, or
+    a new ungated one, breaks them).
+  * `readonly`: whatever the command, every path of the user's tree is exactly as it was.
+  * `readonly_full`: every dry run of every command — plan --dry-run, search, rename --dry-run, replace --dry-run —
+    leaves the tree *identical* and writes only the transient probe, when auto-init adds nothing in that run;
+    `C14_full_holds`: with the one-time ignore-file addition, only the ignore file differs and every write is permitted.
   * `plan_writes_permitted`: a non-dry `plan` writes only `.renamify/`, the transient lock, the plan file and the
-    probe; everything else is unchanged.  `autoinit_once`: the ignore-file program runs only in the run that has
-    `autoInit`, and touches nothing else.
+    probe.  `autoinit_once`: the ignore-file program runs only in the run that has `autoInit`.
+  * `rename_dryrun_writes_nothing` / `before_fix_rename_dryrun_creates_renamify`: the defect repaired by 055e350, as
+    a fact about the model instantiated with the old gate table.
 -/
 
 namespace C14
@@ -135,9 +136,9 @@ theorem replace_dry_run_gates : (∀ k, runsK .replace true k = false) ∧ (∀ 
   · intro d; cases d <;> decide
 
 open Gen.DryRunGates in
-/-- rename_operation: a dry run skips the apply step and writes no plan — but the lock is taken before the gate -/
-theorem rename_dry_run_gates : runsK .rename true .apply = false ∧ runsK .rename true .planWrite = false ∧
-    runsK .rename true .mkdir = false ∧ runsK .rename true .other = false ∧ runsK .rename true .lock = true := by decide
+/-- rename_operation: a dry run skips every writing statement — the lock included (since 055e350) -/
+theorem rename_dry_run_gates : ∀ k, runsK .rename true k = false := by
+  intro k; cases k <;> decide
 
 open Gen.DryRunGates in
 /-- a non-dry `plan` takes the lock and writes the plan, nothing else -/
@@ -151,32 +152,32 @@ theorem probe_is_transient : Gen.DryRunGates.probeIsRaii = true ∧ Gen.DryRunGa
 /-- the effective dry-run flag of a configuration -/
 def isDry (c : Cfg) : Prop := c.dryRun = true ∨ c.cmd = .search
 
-/-- the program of a dry plan / search / dry replace without auto-init is the probe block or nothing -/
-theorem dry_program (c : Cfg) (hd : isDry c) (hr : c.cmd ≠ .rename) (hai : c.autoInit = false) :
+/-- the program of any dry run without auto-init is the probe block or nothing -/
+theorem dry_program (c : Cfg) (hd : isDry c) (hai : c.autoInit = false) :
     program c = (if c.probe && c.cmd != .replace then probeBlock else []) := by
   obtain ⟨cmd, dry, ex, ai, pr⟩ := c
-  simp only at hai hr
+  simp only at hai
   subst hai
-  have hl : runsK cmd dry .lock = false := by
+  have hl : runsKG Gen.DryRunGates.gates cmd dry .lock = false := by
     cases cmd with
     | plan => rcases hd with h | h <;> simp at h; subst h; exact plan_dry_run_gates _
     | search => exact search_is_dry_run _ _
-    | rename => exact absurd rfl hr
+    | rename => rcases hd with h | h <;> simp at h; subst h; exact rename_dry_run_gates _
     | replace => exact replace_dry_run_gates.2.1 _
-  have hw : runsK cmd dry .planWrite = false := by
+  have hw : runsKG Gen.DryRunGates.gates cmd dry .planWrite = false := by
     cases cmd with
     | plan => rcases hd with h | h <;> simp at h; subst h; exact plan_dry_run_gates _
     | search => exact search_is_dry_run _ _
-    | rename => exact absurd rfl hr
+    | rename => rcases hd with h | h <;> simp at h; subst h; exact rename_dry_run_gates _
     | replace => exact replace_dry_run_gates.2.2 _
-  simp [program, runs, hl, hw, probeBlock]
+  simp [program, programG, hl, hw, probeBlock]
 
-/-- **Read-only, guarded.**  plan --dry-run, search and replace --dry-run (no auto-init in this run): the tree after
-    the run is the tree before it, and every path the run writes is the transient probe. -/
-theorem readonly_partial (c : Cfg) (hd : isDry c) (hr : c.cmd ≠ .rename) (hai : c.autoInit = false) (t : T)
+/-- **Read-only.**  Every dry run — plan --dry-run, search, rename --dry-run, replace --dry-run — in which auto-init
+    adds nothing: the tree after the run is the tree before it, and every path the run writes is the transient probe. -/
+theorem readonly_full (c : Cfg) (hd : isDry c) (hai : c.autoInit = false) (t : T)
     (h1 : t .probeDir = none) (h2 : t .probeFile = none) :
     exec t (program c) = t ∧ ∀ op ∈ program c, ∀ p ∈ written op, p ∈ permitted c := by
-  rw [dry_program c hd hr hai]
+  rw [dry_program c hd hai]
   constructor
   · split
     · exact probe_block_identity t h1 h2
@@ -188,32 +189,59 @@ theorem readonly_partial (c : Cfg) (hd : isDry c) (hr : c.cmd ≠ .rename) (hai 
         simp only [written, List.mem_cons, List.not_mem_nil, or_false] at hp <;> subst hp <;> simp [permitted]
     · simp at hop
 
-example : isDry ⟨.plan, true, false, false, true⟩ ∧ (⟨.plan, true, false, false, true⟩ : Cfg).cmd ≠ .rename :=
-  ⟨Or.inl rfl, by decide⟩
+example : isDry ⟨.rename, true, false, false, true⟩ := Or.inl rfl
 
-/-- the statement for every command.  False today (rename --dry-run). -/
+/-- every dry run, auto-init or not, writes only permitted paths -/
+theorem dry_writes_permitted (c : Cfg) (hd : isDry c) : ∀ op ∈ program c, ∀ p ∈ written op, p ∈ permitted c := by
+  obtain ⟨cmd, dry, ex, ai, pr⟩ := c
+  cases cmd <;> cases dry <;> cases ex <;> cases ai <;> cases pr <;>
+    first
+      | decide
+      | (exfalso; rcases hd with h | h <;> simp at h)
+
+/-- C14's read-only half at full strength: every dry run of every command, with or without the one-time ignore-file
+    addition: only permitted writes; every path but the ignore file exactly as before; and the whole tree identical
+    when auto-init adds nothing in this run. -/
 def C14_full : Prop :=
-  ∀ (c : Cfg) (t : T), isDry c → c.autoInit = false → t .probeDir = none → t .probeFile = none → t .lock = none →
-    exec t (program c) = t ∧ ∀ op ∈ program c, ∀ p ∈ written op, p ∈ permitted c
+  ∀ (c : Cfg) (t : T), isDry c → t .probeDir = none → t .probeFile = none → t .ignoreTmp = none →
+    (∀ op ∈ program c, ∀ p ∈ written op, p ∈ permitted c) ∧
+    (∀ q, q ≠ .ignoreFile → exec t (program c) q = t q) ∧
+    (c.autoInit = false → exec t (program c) = t)
+
+theorem C14_full_holds : C14_full := by
+  intro c t hd h1 h2 h3
+  refine ⟨dry_writes_permitted c hd, ?_, fun hai => (readonly_full c hd hai t h1 h2).1⟩
+  obtain ⟨cmd, d, ex, ai, pr⟩ := c
+  cases ai with
+  | false =>
+    intro q _
+    rw [(readonly_full ⟨cmd, d, ex, false, pr⟩ hd rfl t h1 h2).1]
+  | true =>
+    intro q hq
+    rw [program_autoinit, exec_append]
+    have hd' : isDry ⟨cmd, d, ex, false, pr⟩ := hd
+    have f1 : exec t ignoreBlock .probeDir = none := by
+      rw [ignore_block_frame t h3 _ (by decide)]; exact h1
+    have f2 : exec t ignoreBlock .probeFile = none := by
+      rw [ignore_block_frame t h3 _ (by decide)]; exact h2
+    rw [(readonly_full ⟨cmd, d, ex, false, pr⟩ hd' rfl (exec t ignoreBlock) f1 f2).1]
+    exact ignore_block_frame t h3 q hq
 
 def renameDry : Cfg := ⟨.rename, true, false, false, true⟩
 def emptyTree : T := fun _ => none
 
-/-- **Witness (finding rename_dryrun_creates_renamify_dir).**  `rename --dry-run` acquires the lock before the
-    dry-run gate: it creates `.renamify/` (which stays) and the lock file (removed again); neither is a
-    permitted write of a dry run. -/
-theorem C14_witness_rename_dryrun_creates_renamify :
-    isDry renameDry ∧ FsOp.mkdir .renamifyDir ∈ program renameDry ∧ FsOp.openw .lock ∈ program renameDry ∧
-    P.renamifyDir ∉ permitted renameDry ∧ P.lock ∉ permitted renameDry ∧
-    exec emptyTree (program renameDry) .renamifyDir = some .dir ∧ exec emptyTree (program renameDry) .lock = none := by
-  refine ⟨Or.inl rfl, by decide, by decide, by decide, by decide, by decide, by decide⟩
+/-- `rename --dry-run` today: the probe and nothing else -/
+theorem rename_dryrun_writes_nothing :
+    program renameDry = probeBlock ∧ exec emptyTree (program renameDry) .renamifyDir = none := by decide
 
-theorem C14_full_is_false : ¬ C14_full := by
-  intro h
-  have := (h renameDry emptyTree (Or.inl rfl) rfl rfl rfl rfl).1
-  have h2 := congrFun this .renamifyDir
-  rw [C14_witness_rename_dryrun_creates_renamify.2.2.2.2.2.1] at h2
-  simp [emptyTree] at h2
+/-- **Before 055e350.**  With the gate table as it was (lock taken before the dry-run gate) `rename --dry-run`
+    created `.renamify/` (which stayed) and the lock file (removed again); neither is a permitted write of a dry run. -/
+theorem before_fix_rename_dryrun_creates_renamify :
+    FsOp.mkdir .renamifyDir ∈ programG oldRenameGates renameDry ∧ FsOp.openw .lock ∈ programG oldRenameGates renameDry ∧
+    P.renamifyDir ∉ permitted renameDry ∧ P.lock ∉ permitted renameDry ∧
+    exec emptyTree (programG oldRenameGates renameDry) .renamifyDir = some .dir ∧
+    exec emptyTree (programG oldRenameGates renameDry) .lock = none := by
+  refine ⟨by decide, by decide, by decide, by decide, by decide, by decide⟩
 
 /-- every program writes only these paths -/
 theorem program_writes (c : Cfg) : ∀ op ∈ program c, ∀ p ∈ written op,
@@ -235,13 +263,6 @@ theorem readonly (c : Cfg) (t : T) (n : Nat) : exec t (program c) (.user n) = t 
 theorem plan_writes_permitted (ex ai pr : Bool) :
     ∀ op ∈ program ⟨.plan, false, ex, ai, pr⟩, ∀ p ∈ written op, p ∈ permitted ⟨.plan, false, ex, ai, pr⟩ := by
   cases ex <;> cases ai <;> cases pr <;> decide
-
-/-- … and so does every dry run of plan / search / replace, with or without auto-init; for `rename --dry-run`
-    exactly `.renamify` and the lock are outside the permitted set. -/
-theorem dry_writes (cmd : Cmd) (ex ai pr : Bool) :
-    ∀ op ∈ program ⟨cmd, true, ex, ai, pr⟩, ∀ p ∈ written op,
-      p ∈ permitted ⟨cmd, true, ex, ai, pr⟩ ∨ (cmd = .rename ∧ (p = .renamifyDir ∨ p = .lock)) := by
-  cases cmd <;> cases ex <;> cases ai <;> cases pr <;> decide
 
 /-- the ignore-file steps occur only in a run that has `autoInit`; the run that has it moves the temp file onto the
     ignore file and leaves no temp file -/
